@@ -439,12 +439,15 @@ var gstmtFuncs = map[string]bool{
 	"ModbusServer.startTLS": true, "ModbusServer.extractRole": true,
 	"ModbusClient.Open": true, "ModbusClient.Close": true, "ModbusClient.SetEncoding": true, "ModbusClient.SetUnitId": true, "ModbusClient.encoding": true,
 	"mapExceptionCodeToError": true, "mapErrorToExceptionCode": true,
+	// the command-line tool
+	"cli.main": true, "cli.parseUint16": true, "cli.parseInt16": true, "cli.parseUint32": true, "cli.parseInt32": true, "cli.parseFloat32": true,
+	"cli.parseUint64": true, "cli.parseInt64": true, "cli.parseFloat64": true, "cli.parseAddressAndQuantity": true, "cli.parseUnitId": true, "cli.parseHexBytes": true,
 	"uint16ToBytes": true, "bytesToUint16": true, "encodeBools": true, "decodeBools": true, "bytesToUint16s": true, "uint16sToBytes": true,
 }
 
 var gstmtParams = map[string][]string{}
 var gstmtCur string
-var gstmtValueRange = map[string]bool{"ModbusServer.Stop": true}
+var gstmtValueRange = map[string]bool{"ModbusServer.Stop": true, "cli.main": true}
 var gstmtTypedAppend = map[string]bool{"decodeBools": true, "encodeBools": true, "bytesToUint16s": true, "uint16sToBytes": true}
 
 func collectGStmt(fn string, fd *ast.FuncDecl, out map[string]string) {
